@@ -31,13 +31,16 @@ structure OneLine (s : BState) (w body : List Char) : Prop where
 
 /-- what the rules need of the line: blanks of width < 4, then a terminator-free text whose first
     character is none of the block markers, and which is no ordered-list marker either -/
-structure Plain (w body : List Char) : Prop where
+structure PlainG (fenceOK : Bool) (w body : List Char) : Prop where
   blank : AllBlank w
   width : indentWidth w < 4
   noTerm : NoTerm body
   first : ∃ f rest, body = f :: rest ∧
-    f ∉ [' ', '\t', '~', '`', '>', '*', '-', '_', '+', '[', '#']
+    f ∉ [' ', '\t', '>', '*', '-', '_', '+', '[', '#'] ∧ (fenceOK = false → f ≠ '~' ∧ f ≠ '`')
   ord : skipOrdered body = none
+
+/-- … and no fence marker either: only the paragraph rule takes such a line -/
+abbrev Plain (w body : List Char) : Prop := PlainG false w body
 
 theorem takeWhile_append_stop' {α : Type} (p : α → Bool) (a b : List α) (ha : ∀ x ∈ a, p x = true)
     (hb : ∀ x ∈ b.head?, p x = false) : (a ++ b).takeWhile p = a := by
@@ -51,9 +54,9 @@ theorem takeWhile_append_stop' {α : Type} (p : α → Bool) (a b : List α) (ha
     have := ih (fun y hy => ha y (by simp [hy]))
     simp [List.takeWhile_cons, hx, this]
 
-theorem splitLines_one {w body : List Char} (h : Plain w body) :
+theorem splitLines_one {b : Bool} {w body : List Char} (h : PlainG b w body) :
     Lines.splitLines (w ++ body) = [oneOff w body] := by
-  obtain ⟨f, rest, hb, hf⟩ := h.first
+  obtain ⟨f, rest, hb, hf, -⟩ := h.first
   have hnt : NoTerm (w ++ body) := by
     intro c hc
     rcases List.mem_append.mp hc with h1 | h1
@@ -74,7 +77,7 @@ theorem splitLines_one {w body : List Char} (h : Plain w body) :
   rw [hsp, Lines.splitGo_nil, hlead]
   simp [oneOff]
 
-variable {s : BState} {w body : List Char}
+variable {s : BState} {w body : List Char} {b : Bool}
 
 theorem OneLine.off (hs : OneLine s w body) : s.off s.line = .ok (oneOff w body) := by
   simp [BState.off, hs.offs, hs.line]
@@ -82,12 +85,12 @@ theorem OneLine.off (hs : OneLine s w body) : s.off s.line = .ok (oneOff w body)
 theorem OneLine.lineIndent (hs : OneLine s w body) : s.lineIndent s.line = .ok (indentWidth w : Int) := by
   simp [BState.lineIndent, Lines.lineIndent, hs.offs, hs.line, hs.blk, oneOff, liftL]
 
-theorem OneLine.getLine (hs : OneLine s w body) (hp : Plain w body) : s.getLine s.line = .ok body := by
+theorem OneLine.getLine (hs : OneLine s w body) (hp : PlainG b w body) : s.getLine s.line = .ok body := by
   have : Lines.slice (w ++ body) w.length (byteLen w + byteLen body) = .ok body :=
     Lines.slice_eq_ok_iff.mpr ⟨w, [], by simp, hp.blank.byteLen, by simp [hp.blank.byteLen]⟩
   simp [BState.getLine, Lines.getLine, hs.offs, hs.line, hs.src, oneOff, this, liftL]
 
-theorem OneLine.isEmpty (hs : OneLine s w body) (hp : Plain w body) : s.isEmpty 0 = false := by
+theorem OneLine.isEmpty (hs : OneLine s w body) (hp : PlainG b w body) : s.isEmpty 0 = false := by
   obtain ⟨f, rest, hb, _⟩ := hp.first
   have := Lines.utf8Size_pos' f
   simp [BState.isEmpty, Lines.isEmpty, hs.offs, oneOff, hp.blank.byteLen, hb]
@@ -99,7 +102,7 @@ theorem OneLine.getMap (hs : OneLine s w body) :
 
 theorem usizeAsI32_zero : Lines.usizeAsI32 0 = 0 := by decide
 
-theorem OneLine.getLines (hs : OneLine s w body) (hp : Plain w body) :
+theorem OneLine.getLines (hs : OneLine s w body) (hp : PlainG b w body) :
     s.getLines 0 1 0 false = .ok (w ++ body, [(0, 0)]) := by
   have h1 : Lines.slice (w ++ body) 0 w.length = .ok w :=
     Lines.slice_eq_ok_iff.mpr ⟨[], body, by simp, rfl, by simp [hp.blank.byteLen]⟩
@@ -120,23 +123,28 @@ theorem lazyScan_one (hs : OneLine s w body) (test : Test) (setext : Bool) (fuel
     lazyScan test setext (fuel + 1) s s.line = .ok (1, 0, s) := by
   simp [lazyScan, hs.line, hs.lineMax]
 
-/-- every rule but the paragraph rule declines the line and hands the state back -/
+/-- every rule but the paragraph rule (and, on a line that may open a fence, the fence rule)
+    declines the line and hands the state back -/
 theorem runRule_other (cfg : Cfg) (tok : Tok) (test : Test) (fuel : Nat) (hs : OneLine s w body)
-    (hp : Plain w body) (r : RuleId) (hr : r ≠ .paragraph) :
+    (hp : PlainG b w body) (r : RuleId) (hr : r ≠ .paragraph) (hrf : b = true → r ≠ .fence) :
     runRule cfg tok test (fuel + 1) r s false = .ok (false, s) := by
-  obtain ⟨f, rest, hb, hf⟩ := hp.first
+  obtain ⟨f, rest, hb, hf, hff⟩ := hp.first
   have hind := hs.lineIndent
   have hline := hs.getLine hp
   have hw4 : ¬ ((indentWidth w : Int) ≥ 4) := by have := hp.width; omega
   simp only [List.mem_cons, List.not_mem_nil, or_false, not_or] at hf
-  obtain ⟨_, _, f1, f2, f3, f4, f5, f6, f7, f8, f9⟩ := hf
+  obtain ⟨_, _, f3, f4, f5, f6, f7, f8, f9⟩ := hf
   cases r with
   | paragraph => exact absurd rfl hr
   | code =>
     have : (indentWidth w : Int) < 4 := by have := hp.width; omega
     simp [runRule, codeRule, hind, this, pure, Except.pure]
   | fence =>
-    simp [runRule, fenceRule, hind, hw4, hline, hb, f1, f2, pure, Except.pure]
+    cases b with
+    | true => exact absurd rfl (hrf rfl)
+    | false =>
+      obtain ⟨f1, f2⟩ := hff rfl
+      simp [runRule, fenceRule, hind, hw4, hline, hb, f1, f2, pure, Except.pure]
   | blockquote =>
     simp [runRule, blockquoteRule, hind, hw4, hline, hb, f3, pure, Except.pure]
   | hr =>
@@ -193,13 +201,13 @@ theorem runChain_only (run : RuleId → BState → Bool → Res) (chain : List R
 def oneParagraph (w body : List Char) : BNode :=
   ⟨.paragraph, some (w.length, byteLen (w ++ body)), [⟨.inlineRoot (w ++ body) [(0, 0)], none, []⟩]⟩
 
-theorem fresh_oneLine (hp : Plain w body) (k : Kind) (refs : Refs.RefMap) :
+theorem fresh_oneLine (hp : PlainG b w body) (k : Kind) (refs : Refs.RefMap) :
     OneLine (BState.fresh (w ++ body) k refs) w body := by
   refine ⟨rfl, ?_, rfl, rfl, ?_, rfl⟩
   · simp [BState.fresh, splitLines_one hp]
   · simp [BState.fresh, splitLines_one hp]
 
-theorem skipEmpty_one (hs : OneLine s w body) (hp : Plain w body) :
+theorem skipEmpty_one (hs : OneLine s w body) (hp : PlainG b w body) :
     Lines.skipEmptyLines s.offs s.lineMax s.line = 0 := by
   have := hs.isEmpty hp
   unfold BState.isEmpty at this
@@ -212,7 +220,7 @@ theorem tokLoop_one (cfg : Cfg) (hpar : RuleId.paragraph ∈ cfg.chain) (tok : T
       .ok { s with line := 1, children := s.children ++ [oneParagraph w body], tight := true } := by
   have hchain := runChain_only (runRule cfg tok test (f + 2)) cfg.chain s _ .paragraph hpar
     (runRule_paragraph cfg tok test (f + 1) hs hp)
-    (fun r _ hne => runRule_other cfg tok test (f + 1) hs hp r hne)
+    (fun r _ hne => runRule_other cfg tok test (f + 1) hs hp r hne (by simp))
   have hskip : Lines.skipEmptyLines s.offs 1 0 = 0 := by
     have := skipEmpty_one hs hp; rwa [hs.line, hs.lineMax] at this
   have hind : Lines.lineIndent s.offs 0 0 = .ok (indentWidth w : Int) := by
@@ -224,8 +232,8 @@ theorem tokLoop_one (cfg : Cfg) (hpar : RuleId.paragraph ∈ cfg.chain) (tok : T
   simp only at h1 h2 h3 h4 h5 h6 hchain hskip hind hlvl hemp
   subst h1 h3 h4 h5 h6
   rw [tokLoop]
-  simp only [hskip, BState.lineIndent, hind, liftL, ok_bind, hlvl, hchain, afterChain, psub,
-    BState.isEmpty, hemp]
+  simp [hskip, BState.lineIndent, hind, liftL, hlvl, hchain, afterChain, psub,
+    BState.isEmpty, hemp, pure, Except.pure, bind, Except.bind]
   rw [tokLoop]
   simp [pure, Except.pure, oneParagraph]
 
@@ -242,9 +250,108 @@ theorem parseBlocks_one_line (cfg : Cfg) (hpar : RuleId.paragraph ∈ cfg.chain)
   have htok := tokLoop_one cfg hpar (engine cfg (f + 1)).1 (engine cfg (f + 1)).2 f hs hp
     (by show 0 < _; exact hmax)
   unfold parseBlocks tokenize
-  rw [hf]
-  simp only [engine]
-  rw [htok]
+  rw [hf, show (engine cfg (f + 2)).1 = tokLoop cfg (runRule cfg (engine cfg (f + 1)).1
+    (engine cfg (f + 1)).2 (f + 2)) (f + 2) false from rfl, htok]
+  rfl
+
+/-! ## a one-line source that opens a `~~~` fence -/
+
+/-- the fence node of a one-line source  blanks ++ `~~~` ++ info -/
+def oneFence (w body info : List Char) : BNode :=
+  ⟨.codeFence info '~' 3 [], some (w.length, byteLen (w ++ body)), []⟩
+
+theorem countRun_stop (m : Char) (l : List Char) (h : ∀ c ∈ l.head?, c ≠ m) : countRun m l = 0 := by
+  cases l with
+  | nil => rfl
+  | cons c r => simp [countRun, h c (by simp)]
+
+/-- the fence rule on `~~~info` (no closing fence: the block runs to the end of the document) -/
+theorem runRule_fence (cfg : Cfg) (tok : Tok) (test : Test) (fuel : Nat) (hs : OneLine s w body)
+    (hp : PlainG true w body) (info : List Char) (hb : body = '~' :: '~' :: '~' :: info)
+    (hi : ∀ c ∈ info.head?, c ≠ '~') :
+    runRule cfg tok test fuel .fence s false =
+      .ok (true, { s with line := 1, children := s.children ++ [oneFence w body info] }) := by
+  have hind := hs.lineIndent
+  have hline := hs.getLine hp
+  have hoff : s.off 0 = .ok (oneOff w body) := by have := hs.off; rwa [hs.line] at this
+  have hmap : liftL (Lines.getMap s.offs 0 0) = .ok (w.length, byteLen (w ++ body)) := hs.getMap
+  have hw4 : ¬ ((indentWidth w : Int) ≥ 4) := by have := hp.width; omega
+  have hcr : countRun '~' ('~' :: '~' :: info) = 2 := by
+    simp [countRun, countRun_stop '~' info hi]
+  have hsl : Lines.slice ('~' :: '~' :: '~' :: info) 3 (byteLen ('~' :: '~' :: '~' :: info)) = .ok info :=
+    Lines.slice_eq_ok_iff.mpr ⟨['~', '~', '~'], [], by simp, by decide, by
+      simp only [Lines.byteLen_cons]
+      have : ('~' : Char).utf8Size = 1 := by decide
+      omega⟩
+  have hscan : fenceScan s '~' 3 0 = .ok (1, false) := by
+    rw [fenceScan]; simp [hs.lineMax]
+  have hgl : s.getLines 1 1 (i32AsUsize (oneOff w body).indentNonspace) true = .ok ([], []) := by
+    simp [BState.getLines, Lines.getLines, liftL]
+    rw [Lines.getLinesGo]; simp
+  simp only [runRule, fenceRule, hind, ok_bind, hw4, if_false, hline, hb]
+  simp only [hcr, hsl, liftL, ok_bind]
+  have hb' : '~' :: '~' :: '~' :: info = body := hb.symm
+  simp only [hb', hscan, hoff, hgl, ok_bind, psub, BState.getMap, hs.line]
+  simp [pure, Except.pure, hmap, BState.push, oneFence, bind, Except.bind]
+
+theorem runChain_first (run : RuleId → BState → Bool → Res) (pre post : List RuleId) (s s' : BState)
+    (r0 : RuleId) (hfire : run r0 s false = .ok (true, s'))
+    (hq : ∀ r ∈ pre, run r s false = .ok (false, s)) :
+    runChain run (pre ++ r0 :: post) s false = .ok (true, s') := by
+  induction pre with
+  | nil => simp only [List.nil_append, runChain, hfire]
+  | cons r rs ih =>
+    have h1 := hq r (by simp)
+    simp only [List.cons_append, runChain, h1]
+    exact ih (fun r' hr' => hq r' (List.mem_cons_of_mem _ hr'))
+
+theorem tokLoop_fence (cfg : Cfg) (pre post : List RuleId) (hchain : cfg.chain = pre ++ .fence :: post)
+    (hpre : RuleId.paragraph ∉ pre) (hnf : RuleId.fence ∉ pre) (tok : Tok) (test : Test)
+    (f : Nat) (hs : OneLine s w body) (hp : PlainG true w body) (info : List Char)
+    (hb : body = '~' :: '~' :: '~' :: info) (hi : ∀ c ∈ info.head?, c ≠ '~')
+    (hlv : s.level < cfg.maxNesting) :
+    tokLoop cfg (runRule cfg tok test (f + 2)) (f + 2) false s =
+      .ok { s with line := 1, children := s.children ++ [oneFence w body info], tight := true } := by
+  have hfire := runRule_fence cfg tok test (f + 2) hs hp info hb hi
+  have hq : ∀ r ∈ pre, runRule cfg tok test (f + 2) r s false = .ok (false, s) := fun r hr =>
+    runRule_other cfg tok test (f + 1) hs hp r (fun h => hpre (h ▸ hr)) (fun _ h => hnf (h ▸ hr))
+  have hchain' := runChain_first (runRule cfg tok test (f + 2)) pre post s _ .fence hfire hq
+  rw [← hchain] at hchain'
+  have hskip : Lines.skipEmptyLines s.offs 1 0 = 0 := by
+    have := skipEmpty_one hs hp; rwa [hs.line, hs.lineMax] at this
+  have hind : Lines.lineIndent s.offs 0 0 = .ok (indentWidth w : Int) := by
+    simp [Lines.lineIndent, hs.offs, oneOff]
+  have hlvl : ¬ (s.level ≥ cfg.maxNesting) := by omega
+  have hemp : Lines.isEmpty s.offs 0 = false := hs.isEmpty hp
+  obtain ⟨h1, h2, h3, h4, h5, h6⟩ := hs
+  obtain ⟨src, offs, blk, line, lineMax, tight, li, level, nk, ch, refs⟩ := s
+  simp only at h1 h2 h3 h4 h5 h6 hchain' hskip hind hlvl hemp
+  subst h1 h3 h4 h5 h6
+  rw [tokLoop]
+  simp [hskip, BState.lineIndent, hind, liftL, hlvl, hchain', afterChain, psub,
+    BState.isEmpty, hemp, pure, Except.pure, bind, Except.bind]
+  rw [tokLoop]
+  simp [pure, Except.pure]
+
+/-- **the block pass on a one-line source  blanks ++ `~~~` ++ info**: one `CodeFence` with that info
+    string (raw), empty content; for every chain in which the fence rule comes before the paragraph
+    rule -/
+theorem parseBlocks_fence_line (cfg : Cfg) (pre post : List RuleId)
+    (hchain : cfg.chain = pre ++ .fence :: post) (hpre : RuleId.paragraph ∉ pre)
+    (hnf : RuleId.fence ∉ pre) (hmax : 0 < cfg.maxNesting)
+    (w body : List Char) (hp : PlainG true w body) (info : List Char)
+    (hb : body = '~' :: '~' :: '~' :: info) (hi : ∀ c ∈ info.head?, c ≠ '~') :
+    parseBlocks cfg (w ++ body) =
+      .ok (⟨.root, some (0, byteLen (w ++ body)), [oneFence w body info]⟩, []) := by
+  obtain ⟨f, hf⟩ : ∃ f, fuelFor cfg (w ++ body) = f + 2 :=
+    ⟨(Lines.splitLines (w ++ body)).length + min cfg.maxNesting (byteLen (w ++ body)) + 6, by
+      unfold fuelFor; omega⟩
+  have hs := fresh_oneLine hp .root []
+  have htok := tokLoop_fence cfg pre post hchain hpre hnf (engine cfg (f + 1)).1 (engine cfg (f + 1)).2
+    f hs hp info hb hi (by show 0 < _; exact hmax)
+  unfold parseBlocks tokenize
+  rw [hf, show (engine cfg (f + 2)).1 = tokLoop cfg (runRule cfg (engine cfg (f + 1)).1
+    (engine cfg (f + 1)).2 (f + 2)) (f + 2) false from rfl, htok]
   rfl
 
 end MdIt.Block
